@@ -23,8 +23,10 @@ try:
     demos = [f for f in glob.glob(f"{src}/demo{k}*") if not f.endswith(".md")]
     meta = {"property": ID, "index": int(k), "ran": []}
     # demo on the clean tree
-    def place():
+    def place(clean=False):
         for f in demos:
+            if clean and "_new_" in os.path.basename(f):
+                continue   # a demo file that calls a function the change adds: only placed with the change
             dst = os.path.join(d, demo_dir, os.path.basename(f))
             os.makedirs(os.path.dirname(dst), exist_ok=True)
             if os.path.isdir(f):
@@ -39,7 +41,7 @@ try:
     demo_cmd = f"go test -count=1 ./{demo_dir}" if demo_dir != "." else "go test -count=1 ."
     if os.environ.get("DEMO_CMD"):
         demo_cmd = os.environ["DEMO_CMD"]
-    place()
+    place(clean=True)
     rc_clean, out_clean = run(demo_cmd, d)
     unplace()
     meta["ran"].append({"cmd": demo_cmd + "   # demo on the clean tree", "exit": rc_clean})
